@@ -49,7 +49,9 @@ func (s *Service) SyncCommitteeContribution(ctx context.Context,
 	// We create a cancelable context with a timeout.  When a provider responds we cancel the context to cancel the other requests.
 	ctx, cancel := context.WithTimeout(ctx, s.timeout)
 
-	respCh := make(chan *altair.SyncCommitteeContribution, 1)
+	// Every provider can send its response without waiting for a receiver: only the first
+	// response is read, and the goroutines of the other providers must be able to finish.
+	respCh := make(chan *altair.SyncCommitteeContribution, len(s.syncCommitteeContributionProviders))
 	for name, provider := range s.syncCommitteeContributionProviders {
 		go func(ctx context.Context,
 			name string,
